@@ -10,7 +10,7 @@ PROPS = [json.loads(l) for l in (VERIF / "properties.jsonl").read_text().splitli
 CHECKS = {
     "C01": dict(
         technique="TLA+ session state machine (SolverSM) + TLC trace validation of real executions",
-        text="TLC enumerates/simulates behaviours of the SolverSM specification (every depth<=1 operator form x operand kind x operand order; interleaved declare/ensure/solve histories), each behaviour is executed on the real Solver (z3 backend) together with seeded random deep sessions, and every recorded event is judged by TLC against the specification (satisfiability verdict by exhaustive pruned search of the declared domains, returned sol checked as a model with Python types). Bounded exhaustive + sampled: finds any operator mistranslation or lost constraint that manifests on small domains.",
+        text="TLC enumerates/simulates behaviours of the SolverSM specification (every depth<=1 operator form x operand kind x operand order; interleaved declare/ensure/solve histories; domains negative, singleton, wide and empty), each behaviour is executed on the real Solver (z3 backend) together with seeded random deep sessions, and every recorded event is judged by TLC against the specification (satisfiability verdict by exhaustive pruned search of the declared domains, returned sol checked as a model with Python types). Bounded exhaustive + sampled: finds any operator mistranslation or lost constraint that manifests on small domains.",
         note="trusted: TLC, CspSem.tla Eval (the written-down meaning), the 60-line exporter/driver (harness/dx.py, export.py); z3-solver 5.1 is the only real solving path offline; scopes bounded (<=6 vars, domain product <=300/7000, depth<=4)",
         ref="DESIGN.md 5 C01"),
     "C02": dict(
@@ -25,7 +25,7 @@ CHECKS = {
         ref="DESIGN.md 5 C04"),
     "C05": dict(
         technique="TLC enumerates labelings with DivOK (GraphDefs); replay into division_connected + z3; native program judged by TLC",
-        text="Graphs <=4 vertices + catalogue + grids, num_regions 1..3, all R^n labelings, 4 roots options, allow_empty on/off, both encodings; verdict must equal the definition for every labeling.",
+        text="Graphs <=4 vertices + catalogue + grids, num_regions 1..3, all R^n labelings (pinned through constraints, or given as Python ints in whole or in part), 6 roots options (incl. lists longer than num_regions), allow_empty on/off, both encodings; verdict must equal the definition for every labeling.",
         note="as C04; label variables declared 0..R-1",
         ref="DESIGN.md 5 C05"),
     "C06": dict(
@@ -35,7 +35,7 @@ CHECKS = {
         ref="DESIGN.md 5 C06"),
     "C07": dict(
         technique="TLC enumerates set partitions / border patterns with Realisable/BorderOK; replay + z3; native graph-division program judged by TLC",
-        text="All set partitions (restricted growth strings) of graphs <=5 vertices and grids <=2x3 under 7 size specifications (absent, constants, shared variable, per-vertex lists with holes); all 2^m border patterns of graphs and inner grid frames under 6 size specifications, both encodings.",
+        text="All set partitions (restricted growth strings) of graphs <=5 vertices and grids <=2x3 under 11 size specifications (absent, constants incl. 0, shared variable, per-vertex lists with holes / an impossible entry; nested sizes as lists, tuple rows, tuples of tuples, arrays); all 2^m border patterns of graphs and inner grid frames under 10 size specifications, both encodings.",
         note="as C04; native graph-division meaning = CspSem!EvalGraphDiv; grid-form native programs only for boards <= 4 cells (free size variables must be searched by TLC)",
         ref="DESIGN.md 5 C07"),
     "C08": dict(
@@ -50,7 +50,7 @@ CHECKS = {
         ref="DESIGN.md 5 C09"),
     "C10": dict(
         technique="TLC enumerates segment subsets with the strand definition (Crossable/Passed/Cross); replay + z3 through solve(); native program judged by TLC",
-        text="Frames up to 2x2 (4096 subsets) and 1x3/3x1 exhaustively, single_cycle on/off, both encodings, both returned arrays compared with the definition in every satisfying assignment; rectangle drawings, weaves and stray segments on 2x3 .. 4x4 frames and a 6x7 scale-up frame judged by TLC on listed patterns (Trace_Patterns, Trace_Emit plist); segments given as variables, constants or a mixture.",
+        text="Frames up to 2x2 (4096 subsets) and 1x3/3x1 exhaustively, single_cycle on/off, both encodings, both returned arrays compared with the definition in every satisfying assignment; rectangle drawings, weaves and stray segments on 2x3 .. 4x4 frames and a 6x7 scale-up frame judged by TLC on listed patterns (Trace_Patterns, Trace_Emit plist); segments given as variables, constants or a mixture; in every fifth pattern the trail constraint was already posted on the same solver and frame (history of two calls).",
         note="as C04",
         ref="DESIGN.md 5 C10"),
     "C03": dict(
@@ -80,12 +80,12 @@ CHECKS = {
         ref="DESIGN.md 5 C20"),
     "C15": dict(
         technique="TLA+ transcription of every combinator as cursor-threading Ser/Des operators (Serializer.tla); TLC checks RoundTrips on it and enumerates (term, board, value) cases; real round trips judged by TLC (Trace_Serializer)",
-        text="Sequences/grids over boundary alphabets (15/16/255/256/4095, run lengths 19/20/21/40 around the one-character limit, partial digit groups), tuples, nested alternatives, every connected room partition of boards up to 2x3 (3x3 thorough) incl. 1xN/Nx1 in four orderings of rooms and cells, valued rooms: decoded = value (rooms up to canonical order with values attached) and consumed = produced length, judged by TLC on what the real code did; the transcription's text is compared with the real text as a diagnostic (identical in all cases).",
+        text="Sequences/grids over boundary alphabets (15/16/255/256/4095, run lengths 19/20/21/40 around the one-character limit, partial digit groups), tuples, nested alternatives (OneOf written in every legal constructor form), a clue directly followed by a Dict item, every connected room partition of boards up to 2x3 (3x3 thorough) incl. 1xN/Nx1 in four orderings of rooms and cells, valued rooms: decoded = value (rooms up to canonical order with values attached) and consumed = produced length, judged by TLC on what the real code did; the transcription's text is compared with the real text as a diagnostic (identical in all cases).",
         note="trusted: TLC, the term builder (harness/ser_terms.py); OneOf alternatives distinguishable by leading character; Seq/Grid over item-consuming bases",
         ref="DESIGN.md 5 C15"),
     "C16": dict(
         technique="independent pzpr decoders in TLA+ (Pzpr.tla); TLC enumerates problems (MC_Url) and judges the real codecs' URLs (Trace_Url)",
-        text="All problems over each module's clue alphabet on boards up to 2x3 (+ long rows), all connected room partitions, compass clue subsets, for the 12 codec modules: real decode(encode(p)) = p with dimensions; name/width/height in puzz.link order; the independent decoder reads the body back as p; legacy helper encoders and combinator codecs give identical text.",
+        text="All problems over each module's clue alphabet on boards up to 2x3 (+ long rows), all connected room partitions, compass clue subsets, for the 12 codec modules: real decode(encode(p)) = p with dimensions; name/width/height in puzz.link order; the independent decoder reads the body back as p; legacy helper encoders and combinator codecs give identical text; the generic URL layer under each codec with other pzpr host prefixes (port, hyphen, .html form) gives the same text after the prefix and decodes alike.",
         note="trusted: Pzpr.tla (written from the pzpr format), the integer projection in harness/url_codecs.py",
         ref="DESIGN.md 5 C16"),
     "C17": dict(
@@ -95,12 +95,12 @@ CHECKS = {
         ref="DESIGN.md 5 C17"),
     "C18": dict(
         technique="TLA+ transition system of the builder (Segmentation.tla: Merge/Split/Move); TLC proves Valid invariant from every valid state under every bound configuration; every update the real candidates() proposes in those states, and random walks, judged by TLC (Trace_Seg)",
-        text="Boards 2x2, 1x4, 2x3 (thorough 3x2, 3x3 = 1434 connected partitions) x all bound configurations with min<=max<=5: the invariant holds on the specification from every valid state (and fails when the articulation guard is removed - spec-level binding demonstration); in each of those states every update proposed by the real candidates() is applied with copy_with_update and must yield a valid partition within the bounds and leave its argument unchanged; seeded random walks from initial() on boards up to 6x6.",
+        text="Boards 2x2, 1x4, 2x3 (thorough 3x2, 3x3 = 1434 connected partitions) x all bound configurations with min<=max<=5: the invariant holds on the specification from every valid state (and fails when the articulation guard is removed - spec-level binding demonstration); in each of those states every update proposed by the real candidates() is applied with copy_with_update and must yield a valid partition within the bounds and leave its argument unchanged; seeded random walks from initial() on boards up to 6x6; initial() from initial_blocks that do not meet the bounds (one block per cell, rows, columns, dominoes, whole board x a sweep of bounds).",
         note="allow_unmet_constraints_first=False; proposals must be sound, not complete; the kind of update (merge/split/move) is a diagnostic; inner-list sharing is not mutation",
         ref="DESIGN.md 5 C18"),
     "C19": dict(
         technique="TLA+ PRNG spec (uniformity / bijectivity model-checked) replayed into the real functions; TLC trace validation of generate_problem runs with inferred accept/reject decisions (Trace_Gen over Generator.tla); reproducibility pairs",
-        text="Prng.tla: rejection-sampling randint uniform on exactly [a,b] for every raw-source size D<=16, shuffle a bijection from index choices to permutations (n<=5) - checked by TLC; every (D,a,b,raws) case replayed into the real randint with a scripted raw source; real randint/choice/shuffle/random calls with the real XorShift recorded with their raw draws and recomputed by TLC. Generator: runs of the real generate_problem over 11 builder patterns (Choice, nested lists/tuples, ArrayBuilder2D with symmetry / disallow_adjacent / use_move, SegmentationBuilder2D) with policy callbacks are validated event by event: every candidate a neighbour of the current problem per the builder's rules, the result the argument of a sat + unique solver call, None only otherwise, nothing mutated. Reproducibility: same seed under a different Python random state and different z3 seeds.",
+        text="Prng.tla: rejection-sampling randint uniform on exactly [a,b] for every raw-source size D<=16, shuffle a bijection from index choices to permutations (n<=5) - checked by TLC; every (D,a,b,raws) case replayed into the real randint with a scripted raw source; real randint/choice/shuffle/random calls with the real XorShift recorded with their raw draws and recomputed by TLC. Generator: runs of the real generate_problem over 11 builder patterns (Choice, nested lists/tuples, ArrayBuilder2D with symmetry / disallow_adjacent / use_move, SegmentationBuilder2D) with policy callbacks are validated event by event: every candidate a neighbour of the current problem per the builder's rules, the result the argument of a sat + unique solver call, None only otherwise, nothing mutated. Reproducibility: same seed under a different Python random state, different z3 seeds, a re-seeding schedule in one process, and fresh interpreters with different PYTHONHASHSEED (string / bytes / tuple clue values).",
         note="the XorShift bit stream is not pinned; exp() acceptance not modelled (accept/reject is an unlogged internal step TLC infers); callbacks are deterministic functions of the problem",
         ref="DESIGN.md 5 C19"),
     "C11": dict(
